@@ -18,7 +18,7 @@ def _th(*audits: str) -> list[str]:
 
 # properties whose machinery is finished and reviewed (everything else is listed under not_applicable
 # in MANIFEST.json with the reason "in progress")
-READY = {"C01", "C06", "C07", "C10", "C18", "C19", "C20"}
+READY = {"C01", "C06", "C07", "C10", "C17", "C18", "C19", "C20"}
 
 
 def _reg(pid, modules, audits, families, note, partial="", assumptions=None, pre_build=None):
@@ -123,12 +123,14 @@ if _have("Redress/Audit/C20.lean"):
 
 
 def _regen_lockshape() -> None:
-    import subprocess
-    import sys
-    root = Path(__file__).resolve().parent.parent
-    subprocess.run([sys.executable, str(root / "harness" / "extract_locks.py"), "--repo", "/repo", "--out",
-                    str(root / "lean" / "Redress" / "Generated" / "LockShape.lean")], check=True,
-                   capture_output=True, text=True)
+    """C17's translator: regenerate Redress/Generated/LockShape.lean from the CURRENT working tree
+    before the proof obligations are built (a refusal writes a file that does not build)."""
+    from . import extract_locks
+    from .common import REPO, LEAN_DIR
+    try:
+        extract_locks.write_generated(REPO, LEAN_DIR / "Redress" / "Generated" / "LockShape.lean")
+    except (extract_locks.ExtractError, SyntaxError):
+        pass            # reported by the `threads` family (lockshape-extractor-refused)
 
 
 if _have("Redress/Audit/C17.lean"):
@@ -141,4 +143,5 @@ if _have("Redress/Audit/C17.lean"):
          "from circuit.py/budget.py on every run (lock discipline by `decide`) + line-level schedule explorer + "
          "lockset instrumentation",
          partial="CPython's scheduler below line granularity is not modelled; the extractor's classification of "
-                 "statements is trusted and validated dynamically")
+                 "statements is trusted and validated dynamically",
+         pre_build=_regen_lockshape)
